@@ -71,12 +71,12 @@ def _obligations(k, el, cls, q0, nu):
         q = np.concatenate([el.q0, q0])  # internal damper elongation at its default
         k.prove_eq("E_pot(t0,q0)=0", el.E_pot(t0, q), 0, tol=1e-9)
         k.prove_eq("force(t0,q0)=0", el.force(t0, q, u0), 0, tol=1e-9)
-        k.prove_eq("h(t0,q0,u0)=0", np.asarray(el.h(t0, q, u0)).reshape(-1), np.zeros(nu), tol=1e-9)
+        k.prove_eq("h(t0,q0,u0)=0", np.asarray(el.h(t0, q, u0)), np.zeros(nu), tol=1e-9)
         k.prove_eq("damper at rest: q_dot(t0,q0)=0", el.q_dot(t0, q, u0), 0, tol=1e-9)
     else:
         k.prove_eq("E_pot(t0,q0)=0", el.E_pot(t0, q0), 0, tol=1e-9)
         k.prove_eq("la_c(t0,q0,0)=0", el.la_c(t0, q0, u0), 0, tol=1e-9)
-        k.prove_eq("h(t0,q0,0)=0", np.asarray(el.h(t0, q0, u0)).reshape(-1), np.zeros(nu), tol=1e-9)
+        k.prove_eq("h(t0,q0,0)=0", np.asarray(el.h(t0, q0, u0)), np.zeros(nu), tol=1e-9)
         if cls is Spring:
             u = k.reals("u", nu)
             k.prove_eq("spring force vanishes at q0 for every velocity", el.la_c(t0, q0, u), 0, tol=1e-9)
@@ -116,3 +116,65 @@ for _cls in (Spring, KelvinVoigtElement, MaxwellElement):
     contract("C09", f"{_cls.__name__}/TwoPointInteraction[frame-point]", timeout=120, samples=2)(_tpi(_cls, ("frame", "point")))
     contract("C09", f"{_cls.__name__}/Revolute[axis=2]", timeout=120, samples=2)(_rev(_cls, 2))
     contract("C09", f"{_cls.__name__}/Revolute[axis=0]", tiers=("thorough",), timeout=120, samples=2)(_rev(_cls, 0))
+
+
+# ------------------------------------------------------------------ bounded: unusual but legal inputs
+from vk import kit as K  # noqa: E402
+from vk.registry import bounded  # noqa: E402
+
+
+@bounded("C09", "native/integer-typed-and-list-initial-coordinates")
+def b_int_q0(tier, seed):
+    """initial coordinates given as integer arrays / python lists (np.asarray keeps the integer dtype):
+    the default reference must still be stress free.  Runs the real chain through System.assemble."""
+    import contextlib, io, warnings
+
+    from cardillo import System
+
+    rng = np.random.default_rng(seed + 17)
+    cases, failures = 0, []
+    for cls in (Spring, KelvinVoigtElement, MaxwellElement):
+        for kind in ("point-point", "rigid-rigid", "revolute"):
+            for variant in ("int-first", "int-second", "float"):
+                if kind == "revolute" and variant != "float":
+                    continue  # integer quaternions already break the joint itself (Exp_SO3_quat divides in place): not a force-law matter
+                cases += 1
+                try:
+                    with warnings.catch_warnings(), contextlib.redirect_stdout(io.StringIO()):
+                        warnings.simplefilter("ignore")
+                        sysm = System()
+                        extra = PointMass(1.0, q0=rng.normal(size=3))  # unrelated first body shifts all DOF offsets
+                        if kind == "point-point":
+                            qa = [1, 0, 0] if variant == "int-first" else [1.0, 0.25, 0.0]
+                            qb = [3, 2, 0] if variant == "int-second" else [2.5, 1.5, 0.25]
+                            a, b = PointMass(1.0, q0=qa), PointMass(1.0, q0=qb)
+                            sub = TwoPointInteraction(a, b)
+                        elif kind == "rigid-rigid":
+                            qa = [0, 0, 0, 1, 0, 0, 0] if variant == "int-first" else [0.0, 0.5, 0.0, 1.0, 0.0, 0.0, 0.0]
+                            qb = [2, 1, 0, 1, 0, 0, 0] if variant == "int-second" else [1.5, 1.25, 0.5, 1.0, 0.0, 0.0, 0.0]
+                            a, b = RigidBody(1.0, np.eye(3), q0=qa), RigidBody(1.0, np.eye(3), q0=qb)
+                            sub = TwoPointInteraction(a, b, B_r_CP1=np.array([0.1, 0.2, 0.0]), B_r_CP2=np.array([0.0, -0.3, 0.1]))
+                        else:
+                            q = [1, 2, 0, 1, 0, 0, 0] if variant.startswith("int") else [1.0, 2.5, 0.0, 1.0, 0.0, 0.0, 0.0]
+                            a, b = RigidBody(1.0, np.eye(3), q0=q), RigidBody(1.0, np.eye(3), q0=list(q))
+                            sub = Revolute(a, b, axis=2, angle0=0.7)
+                        kw = {} if cls is not MaxwellElement else {}
+                        if cls is Spring:
+                            el = Spring(sub, 50.0, compliance_form=False)
+                        elif cls is KelvinVoigtElement:
+                            el = KelvinVoigtElement(sub, 50.0, 2.0, compliance_form=False)
+                        else:
+                            el = MaxwellElement(sub, 50.0, 2.0)
+                        sysm.add(extra, a, b)
+                        if kind == "revolute":
+                            sysm.add(sub)
+                        sysm.add(el)
+                        sysm.assemble()
+                        t0, q0, u0 = sysm.t0, sysm.q0, sysm.u0
+                        E = el.E_pot(t0, q0[el.qDOF])
+                        h = np.asarray(el.h(t0, q0[el.qDOF], u0[el.uDOF]))
+                    if not (abs(E) <= 1e-12 and np.max(np.abs(h), initial=0.0) <= 1e-10 and h.shape == (len(el.uDOF),)):
+                        failures.append({"what": f"{cls.__name__} on {kind} ({variant} q0): not stress free at (t0, q0)", "input": {"variant": variant}, "detail": f"E_pot={E}, |h|max={np.max(np.abs(h), initial=0.0)}, h.shape={h.shape}"})
+                except Exception as e:  # noqa: BLE001
+                    failures.append({"what": f"{cls.__name__} on {kind} ({variant} q0): assembling raised {type(e).__name__}", "input": {"variant": variant}, "detail": str(e)[:200]})
+    return {"cases": cases, "distinct": cases, "failures": failures, "bound": "3 force laws x 3 subsystem kinds x 3 dtype variants of q0, through System.assemble"}
